@@ -1,18 +1,18 @@
-use inputlayer::{DurabilityMode, StorageEngine, Tuple, Value};
-use verif_harness::e2_store::mk_config;
-fn ta() -> Tuple { Tuple::new(vec![Value::Int64(1), Value::Int64(2)]) }
-fn show(s: &StorageEngine) -> String { format!("{:?}", s.execute_query_tuples_on("default", "q(X,Y) <- r(X,Y)").map(|v| v.len())) }
+use std::collections::HashMap;
+fn order() -> Vec<u32> {
+    let mut m: HashMap<u32, u32> = HashMap::new();
+    for i in 0..20 { m.insert(i, i); }
+    m.keys().copied().collect()
+}
 fn main() {
-    let dir = std::path::PathBuf::from(std::env::args().nth(1).unwrap());
-    let cfg = || mk_config(&dir, 2, DurabilityMode::Immediate, None);
-    let wal = dir.join("persist/wal/current.wal");
-    {
-        let s = StorageEngine::new(cfg()).unwrap();
-        println!("after recovery: {} ; wal {:?}", show(&s), std::fs::read_to_string(&wal));
-        println!("delete: {:?}", s.delete_tuples_from("default", "r", vec![ta()]));
-        println!("after delete: {} ; wal: {:?}", show(&s), std::fs::read_to_string(&wal));
-        drop(s);
-    }
-    let s = StorageEngine::new(cfg()).unwrap();
-    println!("after clean restart: {}", show(&s));
+    let name = std::ffi::CString::new("verif_entropy_pin16").unwrap();
+    let p = unsafe { libc::dlsym(libc::RTLD_DEFAULT, name.as_ptr()) };
+    if !p.is_null() { let f: unsafe extern "C" fn(i32) = unsafe { std::mem::transmute(p) }; unsafe { f(1) }; }
+    let a = std::thread::spawn(order).join().unwrap();
+    let b = std::thread::spawn(order).join().unwrap();
+    let c = std::thread::spawn(|| { let _x: HashMap<u8,u8> = HashMap::new(); order() }).join().unwrap();
+    println!("same across fresh threads: {} ; differs after one more RandomState: {}", a == b, a != c);
+    let name = std::ffi::CString::new("verif_entropy_pin16_served").unwrap();
+    let p = unsafe { libc::dlsym(libc::RTLD_DEFAULT, name.as_ptr()) };
+    if !p.is_null() { let f: unsafe extern "C" fn() -> i64 = unsafe { std::mem::transmute(p) }; println!("served {}", unsafe { f() }); }
 }
